@@ -69,6 +69,8 @@ func (i *interpreter) goroutinesReset() {
 	i.sched = &scheduler{gs: []*gor{main}, cur: main}
 	i.locks = nil
 	i.onceDone = nil
+	i.mapRev = false
+	i.pools = nil
 	i.depth = 0
 }
 
